@@ -185,7 +185,9 @@ class SNum:
             if not refl and not osym and o == 0:
                 raise ZeroDivisionError('division by zero')       # as CPython does for a concrete zero divisor
             if (refl or osym):
-                # divisor symbolic
+                # divisor symbolic: a zero divisor raises, as in CPython (a decision like any other branch)
+                if SBool(b == (z3.IntVal(0) if bi else z3.RealVal(0))):
+                    raise ZeroDivisionError('division by zero')
                 symx._ctx.note_nonlinear()
             if ai:
                 a = z3.ToReal(a)
